@@ -393,6 +393,8 @@ BASES += [
      {"op": "add_comp", "parent": ["S1", "S2"], "comp": spec_of("PMux", "MX"), "group": "g", "rail": "RM"},
      {"op": "add_comp", "parent": "MX", "comp": spec_of("Converter", "C5"), "group": "", "rail": ""}, {"op": "add_comp", "parent": "C5", "comp": spec_of("PLoad", "L5"), "group": "", "rail": ""}],
 ]
+BASES += [[{"op": "system", "comp": _src("S0", 5.0), "group": "", "rail": ""}] + [{"op": "add_source", "comp": _src("S%d" % k_, 5.0 + k_), "group": "", "rail": ""} for k_ in range(1, 5)]
+          + [{"op": "add_comp", "parent": "S0", "comp": spec_of("ILoad", "L0"), "group": "", "rail": ""}]]      # five sources (wide muxes)
 BASES += [_mux3(("F0", "R0", "S1"), 0.0, 9.0), _mux3(("F0", "S1", "S0"), 5.0, 9.0), _mux3(("S1", "RF", "R0"), 5.0, 0.0), _mux3(("R0", "S1", "F0"), 5.0, 9.0)]
 
 
@@ -412,6 +414,14 @@ def alphabet(m):
     A.append({"op": "add_comp", "parent": [inner[0], rails[0] if rails else inner[-1]], "comp": spec_of("PMux", "NM"), "group": "", "rail": ""})
     A.append({"op": "add_comp", "parent": [inner[0], inner[0]], "comp": spec_of("PMux", "NM2"), "group": "", "rail": ""})
     A.append({"op": "add_comp", "parent": [inner[0], inner[-1]], "comp": spec_of("Converter", "NC2"), "group": "", "rail": ""})     # list parent for a non-mux
+    loads_ = [x for x in names if m.nodes[x].type == "LOAD"]
+    if loads_:
+        A.append({"op": "add_comp", "parent": [inner[0], loads_[0]], "comp": spec_of("PMux", "NM3"), "group": "", "rail": ""})      # a load as a later mux input: rejected
+        A.append({"op": "add_comp", "parent": [loads_[0], inner[0]], "comp": spec_of("PMux", "NM4"), "group": "", "rail": ""})
+    srcs_ = [x for x in names if m.nodes[x].type == "SOURCE"]
+    if len(srcs_) >= 5:
+        A.append({"op": "add_comp", "parent": srcs_[:5], "comp": spec_of("PMux", "NM5"), "group": "", "rail": ""})                       # five inputs
+        A.append({"op": "add_comp", "parent": srcs_[:4], "comp": spec_of("PMux", "NM6"), "group": "", "rail": ""})
     A.append({"op": "add_comp", "parent": rails[0] if rails else inner[0], "comp": spec_of("PSwitch", "NS"), "group": "g", "rail": "NS"})   # rail == own name
     A.append({"op": "add_source", "comp": spec_of("Source", "NSRC"), "group": "", "rail": "RS2"})
     A.append({"op": "add_source", "comp": spec_of("Source", first), "group": "", "rail": ""})
